@@ -8,7 +8,7 @@ import json, os, subprocess, sys
 VERIF = os.path.dirname(os.path.dirname(os.path.abspath(__file__)))
 letters = sys.argv[1]
 rnd = int(sys.argv[2])
-a, b = letters[0], letters[1]
+a, b = letters[0], (letters[1] if len(letters) > 1 else None)
 
 EARLIER = {
     1: "",
@@ -17,6 +17,8 @@ EARLIER = {
 EARLIER[3] = EARLIER[2].replace("this is a second round. A first round of seeded changes already used", "this is a third round. Earlier rounds of seeded changes already used").replace(
     "missing copy).", "missing copy) and several of the ideas listed below in their most direct form (a tolerance or threshold made absolute in the central routine, a result cached on the object under test keyed on too little, a shared default argument, an in-place update of a cached array). Try to find a DIFFERENT code site or clause of the property than the obvious central routine, or a less direct way for the fault to arise.")
 EARLIER[4] = ("this is a fourth round. Earlier rounds of seeded changes already used: single-operator slips in the main functions (swapped axis/index, wrong comparison, dropped argument, off-by-one, missing copy); tolerances / thresholds made absolute; fast paths on exact equality of two parameters or on a sum being zero; results memoised at module level or on the object and keyed on too little (shape, origin, mask pattern, sub-size missing from the key), cached helpers travelling to copies / derived objects; shared mutable default arguments; in-place updates of cached arrays or of the caller's arrays; output buffers inheriting the dtype of the input; point-location tolerances. Do NOT repeat those. Find a DIFFERENT kind of fault or a different place for it, for example: a less-travelled public entry point that the property still covers (an alternative constructor or classmethod, a `from_*` / `via_*` route, a public utility function, a method on the derived / sliced / trimmed object rather than on the original); an interaction between two options or two features that are each fine alone; behaviour that differs between equivalent input forms (list vs ndarray vs the library's own types, slim vs native storage, float vs tuple pixel scales, int vs per-pixel array arguments); the second, third or last of several objects / calls (ordering, counts of three or more, the last element, empty or single-element collections); the error contract (an error that must be raised is no longer raised, or is raised for a valid input); integer overflow / truncation / rounding mode (floor vs round vs int()) at negative or half-way values; or state carried by an object the library hands back to the caller.")
+
+EARLIER[5] = (EARLIER[4].replace("this is a fourth round.", "this is a fifth round.").split("Do NOT repeat those.")[0] + "Also used already: alternative constructors / from_* routes, list-vs-ndarray input forms, sizes beyond internal thresholds, empty collections, error contracts, rounding modes, uninitialised buffers. Do NOT repeat those. Find a DIFFERENT kind of fault, for example: behaviour under numpy arithmetic / ufuncs / slicing / copy.copy / copy.deepcopy / pickle of the library's array types (mask, pixel scales, origin or derived attributes lost or stale on the result); a property or attribute of a derived object (a resized / padded / trimmed / binned / sliced / sub-gridded / flipped object, or the output of one inversion fed into another) rather than of the original; dependence on input dtype (float32, int, bool, big-endian, non-contiguous / Fortran-ordered / negative-stride views); NaN / inf / negative-zero / denormal values in places where the property still has to hold; a fault that appears only on the SECOND call with different arguments or only when two objects of different shape are alive at once; an argument that is honoured in one code path but ignored in a sibling path (e.g. the settings object, a flag or a keyword that is silently dropped for one of several mesh / regularization / transformer / mask types); a unit / convention slip (y-x order, arc-second vs pixel, origin sign, upper-left vs centre) confined to one rarely used combination; or a loop bound / stride that is only wrong for a particular remainder (size mod 2, mod 3, mod sub-size).")
 
 props = [json.loads(l) for l in open(os.path.join(VERIF, "properties.jsonl"))]
 os.makedirs("/tmp/seed/out", exist_ok=True)
@@ -48,6 +50,12 @@ For EACH change x in ({a}, {b}) write to /tmp/seed/out/{pid}x/ (i.e. /tmp/seed/o
   - demo.py : a small standalone program (uses only the public library API + numpy) that exits 0 and prints PASS on the untouched code and exits 1 / prints FAIL with the change applied; run as `cd <repo root> && /venv/bin/python /tmp/seed/out/{pid}x/demo.py` (it must import autoarray from the current directory, so start it with `import sys, os; sys.path.insert(0, os.getcwd())`). The demo must check the property itself (compare against an independent expectation computed in the demo), not just pin a magic number copied from the unmodified code.
   - notes.md : which clause of the property it breaks, what is needed for it to manifest, why the existing tests do not notice, and exactly what you ran (test-suite summary line before/after, demo output with and without the change).
 Verify all of it yourself before finishing: baseline tests unchanged, demo passes without and fails with the change. Leave the worktree clean (`git checkout -- .`; remove stray files you created in it) when done. Final answer: a short summary of the two changes."""
+    if b is None:
+        text = (text.replace(f"produce TWO different, independent changes (call them {a} and {b}), each a small source edit", f"produce ONE change (call it {a}), a small source edit")
+                .replace(f"For EACH change x in ({a}, {b}) write to /tmp/seed/out/{pid}x/ (i.e. /tmp/seed/out/{pid}{a}/ and /tmp/seed/out/{pid}{b}/):", f"Write to /tmp/seed/out/{pid}{a}/ (x = {a} below):")
+                .replace(" Reset the worktree (`git checkout -- .`) between the two changes so each diff is independent.", "")
+                .replace("; the two changes should hit different code sites / different clauses of the property.", ".")
+                .replace("a short summary of the two changes.", "a short summary of the change. You have about 20 minutes: pick an idea quickly, keep it small."))
     open("/tmp/seed/prompt%d_%s.txt" % (rnd, pid), "w").write(text)
 print("wrote %d prompts under /tmp/seed; worktrees:" % len(props))
 subprocess.run("git -C /repo worktree list | wc -l", shell=True)
